@@ -60,6 +60,19 @@ pub const KF_WEAVE: &str = "weave-breaks-sibling-run";
 pub const KF_DOUBLE: &str = "two-targets-in-one-compound";
 pub const KF_LOOP: &str = "complex-extender-loop";
 pub const KF_DUP: &str = "duplicate-selector-rules";
+pub const KF_PHSPEC: &str = "placeholder-in-not-counts-specificity";
+
+/// a placeholder inside `:not()`/`:is()`..: Sass counts it as a class (1000) when it decides whether
+/// a generated selector may be trimmed, but the placeholder (`:not(%p)` as a whole) is not printed
+fn placeholder_in_pseudo(l: &List) -> bool {
+    let mut hit = false;
+    l.walk(&mut |s| {
+        if let Simple::Sel(_, inner) = s {
+            inner.walk(&mut |t| hit |= matches!(t, Simple::Placeholder(_)));
+        }
+    });
+    hit
+}
 
 /// exclusion by construction applies during the search only; a replay judges the case in full
 fn active(cx: &Ctx, id: &str) -> bool {
@@ -823,7 +836,8 @@ impl Prop for C10 {
                     .collect(),
                 // finding #21 lives where a printed complex contains an :is()-like pseudo (min != max specificity)
                 spec_ok: !(active(cx, KF_SPEC)
-                    && (r.sel.has_selector_pseudo() || sp[r.marker].has_selector_pseudo())),
+                    && (r.sel.has_selector_pseudo() || sp[r.marker].has_selector_pseudo()))
+                    && !(active(cx, KF_PHSPEC) && placeholder_in_pseudo(&r.sel)),
             })
             .collect();
         // Lower bound for complex extenders (the one place where Sass's weave is complete): source
@@ -878,8 +892,11 @@ impl Prop for C10 {
         if !lowers.is_empty() {
             cx.class("weave-lower-bound:judged");
         }
-        if rj.iter().any(|r| !r.spec_ok) {
+        if active(cx, KF_SPEC) && rj.iter().any(|r| !r.spec_ok) {
             cx.excluded("known:specificity-min-max-swapped (#21): specificity law skipped for rules with a selector pseudo");
+        }
+        if active(cx, KF_PHSPEC) && rules.iter().any(|r| placeholder_in_pseudo(&r.sel)) {
+            cx.excluded("known:placeholder-in-not-counts-specificity: specificity law skipped for rules with a placeholder inside a selector pseudo");
         }
 
         let regions = Regions {
@@ -964,7 +981,9 @@ impl Prop for C10 {
                 }
                 if let Some((kind, mask, why)) = bad {
                     let elem = (0..d.n).find(|i| mask >> i & 1 == 1).unwrap();
-                    let kind = if kind == "specificity" && (r.sel.has_selector_pseudo() || sp[r.marker].has_selector_pseudo()) {
+                    let kind = if kind == "specificity" && placeholder_in_pseudo(&r.sel) {
+                        "specificity:placeholder-in-selector-pseudo"
+                    } else if kind == "specificity" && (r.sel.has_selector_pseudo() || sp[r.marker].has_selector_pseudo()) {
                         "specificity:selector-pseudo"
                     } else {
                         kind
